@@ -712,7 +712,12 @@ func withBigNumbers(t *rapid.T, v any) any {
 
 func drawCase(t *rapid.T) Case {
 	doc := jpx.DrawData(t, 4)
-	if _, ok := doc.([]any); !ok {
+	// one document in eight is a bare scalar: nothing follows a number there but the end of the input
+	scalarDoc := rapid.IntRange(0, 7).Draw(t, "scalardoc") == 0
+	if scalarDoc {
+		doc = rapid.SampledFrom([]any{int64(42), int64(-7), 2.5, -1500.0, int64(0), "s", true, nil, 1e300, int64(1) << 60}).Draw(t, "scalar")
+	}
+	if _, ok := doc.([]any); !ok && !scalarDoc {
 		if _, ok2 := doc.(map[string]any); !ok2 {
 			doc = map[string]any{"a": doc, "b": jpx.DrawData(t, 3), "c": []any{jpx.DrawData(t, 2), jpx.DrawData(t, 2)}}
 		}
@@ -722,6 +727,9 @@ func drawCase(t *rapid.T) Case {
 	filters := false
 	for i := 0; i < n; i++ {
 		tg := drawTarget(t)
+		if (scalarDoc && i == 0) || rapid.IntRange(0, 11).Draw(t, "roottarget") == 0 {
+			tg = jpx.Path{{K: "root"}} // the document itself
+		}
 		for _, f := range tg {
 			filters = filters || f.K == "filter"
 		}
